@@ -166,6 +166,26 @@ func mutateAndCheck(c *obs.Case, run *obs.Run, o *oracle, rng *rand.Rand, addr, 
 			run.Tally(fmt.Sprintf("%s/addr[%d]", shapePrefix, pos), true)
 		}
 	}
+	// changed payload LENGTH under the same address: the oracle decides (the BMT is defined over the
+	// zero-padded data, so appended zero bytes keep the address and the chunk stays valid by the
+	// statement; anything else does not)
+	for _, ext := range [][]byte{{0}, {0, 0, 0}, {byte(1 + rng.Intn(255))}, {0, byte(1 + rng.Intn(255))}} {
+		if len(payload)+len(ext) > cs+spec.SpanSize {
+			continue
+		}
+		mp := append(append([]byte(nil), payload...), ext...)
+		want := o.valid(addr, mp)
+		if want {
+			run.Stat("zero_extension_same_address", 1)
+		}
+		compare(c, run, "payload-extended", want, addr, mp, map[string]interface{}{"appended": fmt.Sprintf("%x", ext)})
+		run.Tally(shapePrefix+"/extended", true)
+	}
+	if len(payload) > 9 {
+		mp := payload[:len(payload)-1]
+		compare(c, run, "payload-truncated", o.valid(addr, mp), addr, mp, nil)
+		run.Tally(shapePrefix+"/truncated", true)
+	}
 	// other address lengths can never equal the 32-byte hash
 	for _, a := range [][]byte{addr[:31], append(append([]byte(nil), addr...), 0), {}, addr[1:]} {
 		compare(c, run, "address-length-changed", false, a, payload, map[string]interface{}{"addr_len": len(a)})
@@ -349,7 +369,7 @@ func largeCase(t *testing.T, run *obs.Run, o *oracle, i, n int) {
 		}
 		set[8], set[pl-1] = true, true
 		nseg := (n + 31) / 32
-		for k := 0; k < run.N(4, 16); k++ { // segment boundaries +-1 of random segments
+		for k := 0; k < run.N(4, 10); k++ { // segment boundaries +-1 of random segments
 			s := rng.Intn(nseg)
 			for _, p := range []int{8 + 32*s - 1, 8 + 32*s, 8 + 32*s + 31, 8 + 32*s + 32} {
 				if p >= 8 && p < pl {
@@ -357,7 +377,7 @@ func largeCase(t *testing.T, run *obs.Run, o *oracle, i, n int) {
 				}
 			}
 		}
-		for k := 0; k < run.N(10, 64); k++ {
+		for k := 0; k < run.N(10, 40); k++ {
 			set[8+rng.Intn(n)] = true
 		}
 		// the last, partially filled segment and the last full section boundary
@@ -387,7 +407,7 @@ func largeLens(run *obs.Run, which int) []int {
 	}[which]
 	rng := run.RandFor(fmt.Sprintf("large-lens-%d", which))
 	out := append([]int(nil), fixed...)
-	for i := 0; i < run.N(12, 100); i++ {
+	for i := 0; i < run.N(12, 60); i++ {
 		if i%2 == 0 {
 			out = append(out, 505+rng.Intn(16384))
 		} else {
